@@ -160,7 +160,8 @@ def shared_objects(ctx, b, tx, rng):
                 continue
 
             def together(fmt=fmt, W=W, lines=lines):
-                texts3 = [[lines[0]], [lines[1], "middle"], ["last " + lines[0]]]
+                # (the third repeats a piece of the first: a line is kept whatever else is on the screen)
+                texts3 = [[lines[0] + " and more"], [lines[1], "middle"], [lines[0]]]
                 # (the second of them ends with a line break: a line break is not the end of a line that follows it)
                 cs = CaptionSet({"en-US": CaptionList([Caption(1000000, 2000000, [T("before")])] +
                                                       [Caption(3000000, 4000000, node_lists(tl, "trailing_break" if k_ == 1 else "plain")) for k_, tl in enumerate(texts3)] +
